@@ -857,7 +857,9 @@ func (f *Frame) enterLoop(li *loopInfo, back map[[2]*ssa.BasicBlock]bool) {
 	}
 	lh := ex.decl(f.pfx+fmt.Sprintf("loophead%d", li.ordinal), "Bool")
 	// an arbitrary iteration is only reachable if the loop was entered
-	ex.assume(implies(lh, f.pc))
+	// (a fact about the path-condition variable itself: never sliced away, the mutual exclusion of
+	// return sites depends on it)
+	ex.global(func() { ex.assume(implies(lh, f.pc)) })
 	f.pc = lh
 	ex.cover = append(ex.cover, lh)
 	envHead := f.invEnv(li, func(p *ssa.Phi) Val { return headPhi[p] }, f.st, headVis)
